@@ -25,7 +25,7 @@ ASSUMPTIONS = [
     "the objective is the one handed to scipy's least_squares (0.5*sum residual^2 over the fit region chosen by the library)",
     "images and candidates restricted to the catalogue; scipy's optimiser is environment",
 ]
-LEVELS = ["fixed", "auto", "fixed+fit", "auto+fit"]
+LEVELS = ["fixed", "auto", "fixed+fit", "auto+fit", "auto-min", "auto-max"]  # the last two: only ONE of the two levels is determined automatically
 _REC = {"calls": []}
 
 
@@ -138,6 +138,8 @@ def candidates(g, tier, img):
         # candidates that cover no support point (vanished droplets): nothing to fit, every clause still applies
         out.append(("SphericalDroplet", 0, None, "vanished"))
         out.append(("DiffuseDroplet", 0, 1.0, "vanished"))
+        if k == "cart" and any(g["periodic"]):
+            out.append(("DiffuseDroplet", 0, 1.0, "vanished-outside"))  # ... lying in a periodic image of the box
         if pert is not None:
             # perturbed classes without any mode are valid candidates, too
             out.append((pert, 0, 1.0, "truth"))
@@ -249,6 +251,10 @@ def prepare(case):
         cR = 0.7 * R
     elif state == "vanished":
         cR = 0.0
+    elif state == "vanished-outside":
+        cR = 0.0
+        L = geom.cart_lengths(g)
+        cc = [x + (L[i] if g["periodic"][i] else 0.0) for i, x in enumerate(cc)]
     elif state.startswith("scan"):
         _, i, j = state.split(":")
         if g.get("fine"):
@@ -281,6 +287,10 @@ def prepare(case):
     args = {}
     if lv.startswith("fixed"):
         args.update(vmin=b, vmax=a + b)
+    elif lv == "auto-min":
+        args.update(vmin=None, vmax=a + b)
+    elif lv == "auto-max":
+        args.update(vmin=b, vmax=None)
     else:
         args.update(vmin=None, vmax=None)
     if lv.endswith("+fit"):
@@ -321,7 +331,7 @@ def run_case(case, ctx):
     except Exception as e:  # noqa
         ctx.check("C04.plural-agrees", False, {"exc": repr(e)[:300]}, tags)
     ctx.check("C04.optimiser-observed", len(calls) == 1, {"calls": len(calls)}, tags)
-    if state == "vanished":
+    if state.startswith("vanished"):
         ctx.count("candidate-covering-no-cell")
     if clsname.startswith("Perturbed") and modes == 0:
         ctx.count("perturbed-candidate-without-modes")
@@ -342,6 +352,11 @@ def run_case(case, ctx):
                 if len(calls[0]["x0"]) != len(np.asarray(start._data_array)[[i for i in range(len(start._data_array)) if i not in cons_idx(grid)]]) + 2:
                     l0 = l1 = (b if lv.startswith("fixed") else float(dm_.min()))
                     r0 = r1 = ((a) if lv.startswith("fixed") else float(dm_.max() - dm_.min()))
+            elif lv in ("auto-min", "auto-max"):
+                lo_ = float(dm_.min()) if lv == "auto-min" else b
+                hi_ = float(dm_.max()) if lv == "auto-max" else a + b
+                l0 = l1 = lo_
+                r0 = r1 = hi_ - lo_
             else:
                 l0 = l1 = b if lv.startswith("fixed") else float(dm_.min())
                 r0 = r1 = a if lv.startswith("fixed") else float(dm_.max() - dm_.min())
@@ -386,7 +401,7 @@ def run_case(case, ctx):
             if g["periodic"][ax]:
                 lo = g["origin"][ax]
                 ctx.check("C04.wrapped", lo - 1e-12 <= out.position[ax] <= lo + L[ax] + 1e-12, {"axis": ax, "pos": out.position}, tags)
-        if state in ("outside", "outside-perturbed"):
+        if state in ("outside", "outside-perturbed", "vanished-outside"):
             ctx.count("candidate-outside-box")
     elif kind == "cyl" and g["periodic_z"]:
         ctx.check("C04.wrapped", g["z"][0] - 1e-12 <= out.position[2] <= g["z"][1] + 1e-12, {"pos": out.position}, tags)
